@@ -140,6 +140,43 @@ def canon_score(out):
     return unparse(res)
 
 
+RENAMERS = ('normalize_instrument_names', 'normalize')
+
+
+def _reindex(names_content):
+    """{old name: new name}: inside every instrument the voices are numbered in the order of their content.  Which voice of
+    an instrument gets which index after normalize_instrument_names depends on the order in which normalize_instruments
+    met / added the parts (an iteration over a set of names): not observable, not claimed (false alarm seen in a thorough
+    run on a stretched score with violin__0 and violin__1)."""
+    groups = {}
+    for name, content in names_content.items():
+        groups.setdefault(name.split('__')[0], []).append((content, name))
+    ren = {}
+    for base, lst in groups.items():
+        for i, (_c, name) in enumerate(sorted(lst)):
+            ren[name] = f'{base}__{i}'
+    return ren
+
+
+def canon_score_names(out):
+    chords = core.parse_sx(out)
+    content = {}
+    for ci, c in enumerate(chords):
+        for p in c[7:]:
+            content.setdefault(p[0], {})[ci] = unparse(p[1:])
+    ren = _reindex({n: tuple(sorted(d.items())) for n, d in content.items()})
+    res = []
+    for c in chords:
+        res.append(c[:7] + sorted(([ren[p[0]]] + p[1:] for p in c[7:]), key=lambda p: p[0]))
+    return unparse(res)
+
+
+def canon_sound_names(out):
+    parts = core.parse_sx(out)
+    ren = _reindex({p[0]: unparse(p[1:]) for p in parts})
+    return unparse(sorted(([ren[p[0]]] + p[1:] for p in parts), key=lambda p: p[0]))
+
+
 def sound3(s):
     """{part: [(pitch, onset, duration)]} of the library's own rendering"""
     return {p: [(a, b, c) for a, b, c, _ in v] for p, v in sound.impl_sound(s).items()}
@@ -314,14 +351,17 @@ def correspondence(ctx):
         def run():
             res['t'] = apply_ops(s, ops, arg)
             return res['t']
-        impl = py_res(run, show_score)
+        renames = any(o in RENAMERS for o in ops)
+        cs, cn = (canon_score_names, canon_sound_names) if renames else (canon_score, canon_sound)
+        impl = py_res(run, (lambda t: canon_score_names(show_score(t))) if renames else show_score)
         nontriv = 't' in res and changes(s, res['t'])
         bucket = ['op=' + '+'.join(ops)] + ft + (['ERR'] if impl.startswith('ERR:') else [])
-        cases.append({'line': sx('renotate', ops, arg, enc), 'impl': impl, 'canon': canon_score, 'input': inp,
+        cases.append({'line': sx('renotate', ops, arg, enc), 'impl': impl, 'canon': cs, 'input': inp,
                       'bucket': bucket, 'nontrivial': nontriv})
         if 't' in res and not has_empty_melody(res['t']):
-            cases2.append({'line': sx('sound', ops, arg, enc), 'impl': py_res(lambda: sound3(res['t']), show_sound),
-                           'canon': canon_sound, 'input': inp, 'bucket': bucket, 'nontrivial': nontriv})
+            cases2.append({'line': sx('sound', ops, arg, enc),
+                           'impl': py_res(lambda: sound3(res['t']), (lambda x: canon_sound_names(show_sound(x))) if renames else show_sound),
+                           'canon': cn, 'input': inp, 'bucket': bucket, 'nontrivial': nontriv})
     ctx.compare('renotate', 'C11', cases)
     ctx.compare('sound', 'C11', cases2)
 
